@@ -37,7 +37,9 @@ KEY = ['COCC', 'CC=CCC', 'C1CC=CC=C1', 'C1=CCC=CC1', r'CC/C(C)=C(C)/CC', r'CC/C(
        'c1ccc2c(c1)CCC2', 'C1OC1c1ccccc1', 'CC[C@H](C)O', '[CH3][CH2]O',
        # a carbonyl next to an sp2 / aromatic carbon (peripheral names CO and C[d] / C[B] on one centre),
        # a hetero six-ring numbered before a benzene ring
-       'C=CC=O', 'O=Cc1ccccc1', 'C1CCc2ccccc2O1']
+       'C=CC=O', 'O=Cc1ccccc1', 'C1CCc2ccccc2O1',
+       # a correction that a remap feeds (HalfCis -> 0.5 Cis) together with the correction itself
+       'CC=CCC=C(C)C', 'CC(C)=CC']
 GAS = GAS + KEY
 PT = ['C([Pt])C', 'C([Pt])([Pt])C', 'C([Pt])([Pt])([Pt])C', 'CC', 'CCC', 'CO', 'CCO', 'OC([Pt])C', 'CC([Pt])O', 'OCC([Pt])O',
       'C(=O)([Pt])O', 'C(=O)([Pt])C', 'C([Pt])([Pt])O', 'C([Pt])C([Pt])', 'C([Pt])([Pt])C([Pt])([Pt])', 'O([Pt])C', 'O([Pt])CC',
